@@ -38,7 +38,7 @@ func frontDriver(seed uint64, n int, outV, outJSON string, args []string) {
 	only := "c01"
 	for _, a := range args {
 		a = strings.ToLower(strings.TrimPrefix(a, "-"))
-		if a == "c01" || a == "c02" || a == "c18" || a == "c17" {
+		if a == "c01" || a == "c02" || a == "c18" || a == "c17" || a == "c10" {
 			only = a
 		}
 	}
@@ -65,6 +65,9 @@ func frontDriver(seed uint64, n int, outV, outJSON string, args []string) {
 			}
 		}
 		runC02(e, n)
+	case "c10":
+		e.rep.Rule = "FindMissingBlobs over bufconn against a real disk cache, with and without a scripted backend (cache.Proxy answering Contains from a table, max_proxy_blob_size 5000): request lists of length 0,1,19,20,21,40,41,45,~150 drawn from local / backend-only / backend-only-oversize / absent / size-mismatched (stored hash, size +-1) / empty-blob digests, with exact duplicates (adjacent, far apart, across the batch boundary of 20) and same-hash-different-size pairs, plus malformed requests (bad hash, zero size under a non-empty hash, negative size); expected = exactly the request's absent digests in request order with duplicates kept; non-trivial = every request with at least one duplicate or backend-held digest; distinct = distinct (length class, backend?, composition, outcome)"
+		runC10(e, n)
 	case "c17":
 		e.rep.Rule = "a real disk cache of 10 blocks with max_size_hard_limit in {max_size, +1 block, +2 blocks, off}, the background remover parked at its yield point; the cache is filled and pushed until currentSize + deletion backlog reaches the limit; then every write path (HTTP PUT cas plain/zstd and ac, BatchUpdateBlobs identity/zstd/3 entries, ByteStream.Write blobs and compressed-blobs in one and several messages, UpdateActionResult with and without inlined blobs, SpliceBlob, FetchBlob) must answer the retryable class and change nothing; reads of indexed entries through every read path must succeed; after the remover deleted the backlog the same uploads must be admitted; with the limit off nothing is refused; non-trivial = every case; distinct = distinct (path, phase, limit, outcome)"
 		runC17(e, n)
